@@ -28,7 +28,8 @@ type ReaderCfg struct {
 	Retain   bool   `json:"retain"`    // keep every slice returned since the last Release and re-check it after every op
 	CoTenant int    `json:"co_tenant"` // 0 off, 1 adversary keeps what it takes, 2 adversary frees it again
 	NoNeg    bool   `json:"no_neg"`
-	Warm     int    `json:"warm,omitempty"` // (Next(1), Release) cycles before the history starts (the size-statistics ring wraps at 10)
+	BigAlloc bool   `json:"big_allocations,omitempty"` // the configuration needs allocations above the usual 64 MiB cap (replay raises the cap too)
+	Warm     int    `json:"warm,omitempty"`            // (Next(1), Release) cycles before the history starts (the size-statistics ring wraps at 10)
 }
 
 type rop struct {
@@ -111,6 +112,15 @@ func (s *readerSys) Reset() {
 		s.r, s.dr = dr, dr
 	}
 	s.warmWhat, s.warmSig = "", ""
+	if s.cfg.Warm > 0 {
+		has := false
+		for _, o := range s.ops {
+			has = has || o == rop{"next", 1}
+		}
+		if !has {
+			panic("readersys: a Warm configuration needs size 1 in its alphabet (the warm-up cycles are Next(1), Release)")
+		}
+	}
 	for i := 0; i < s.cfg.Warm && s.warmWhat == ""; i++ {
 		for _, want := range []rop{{"next", 1}, {"release", 0}} {
 			for oi, o := range s.ops {
@@ -140,7 +150,7 @@ func (s *readerSys) Key() string {
 	b.WriteString(vdump.Key(s.dr, vdump.Opt{Content: true}))
 	fmt.Fprintf(&b, "|p%d|b%d|", s.pos, s.base)
 	if s.env != nil {
-		fmt.Fprintf(&b, "s%d/%d/%d/%v|", s.env.pos, s.env.zr, s.env.tz, s.env.ErrReturned)
+		fmt.Fprintf(&b, "s%d/%d/%d/%d/%v|", s.env.pos, s.env.zr, s.env.tz, s.env.dataReads, s.env.ErrReturned)
 	}
 	if s.cfg.Retain {
 		for _, k := range s.kept {
